@@ -56,7 +56,7 @@ Qed.
 Lemma hyphen_p_wf s : wf_res (hyphen_p s).
 Proof.
   unfold hyphen_p, wf_res.
-  destruct (match partial_version s with Some (p, r) => (Some p, r) | None => (None, s) end) as [lower s1].
+  destruct (partial_version s) as [[lower s1]|]; auto.
   destruct (space1 s1) as [s2|]; auto. destruct (lit1 45 s2) as [s3|]; auto.
   destruct (space1 s3) as [s4|]; auto. destruct (partial_version s4) as [[up r]|]; auto. apply hyphen_tbl_wf.
 Qed.
@@ -68,7 +68,6 @@ Qed.
 Lemma simple_wf s : wf_opt (fst (simple s)).
 Proof.
   unfold simple.
-  pose proof (terminated_p_wf hyphen_p s hyphen_p_wf) as H1. destruct (terminated_p hyphen_p s) as [[b r]|]; [exact H1|].
   pose proof (terminated_p_wf primitive_p s primitive_p_wf) as H2. destruct (terminated_p primitive_p s) as [[b r]|]; [exact H2|].
   pose proof (terminated_p_wf partial_p s partial_p_wf) as H3. destruct (terminated_p partial_p s) as [[b r]|]; [exact H3|].
   pose proof (terminated_p_wf tilde_p s tilde_p_wf) as H4. destruct (terminated_p tilde_p s) as [[b r]|]; [exact H4|].
@@ -99,11 +98,17 @@ Proof.
     apply (bs_intersect_wf a b); auto. }
   specialize (H (Some first) Wf). destruct (fold_left _ rest (Some first)); cbn; [constructor; [exact H|constructor]|constructor].
 Qed.
-Lemma range_p_wf s bs r : range_p s = Some (bs, r) -> wf bs.
+Lemma simples_p_wf s bs r : simples_p s = Some (bs, r) -> wf bs.
 Proof.
-  unfold range_p. pose proof (simple_wf s) as W. destruct (simple s) as [b s1]. cbn in W.
+  unfold simples_p. pose proof (simple_wf s) as W. destruct (simple s) as [b s1]. cbn in W.
   destruct (simples_tail (length s1) s1) as [[l r']|] eqn:E; [|discriminate]. intros [= <- _].
   apply and_fold_wf. apply (flatten_opts_wf (b :: l)). constructor; auto. eapply simples_tail_wf; eauto.
+Qed.
+Lemma range_p_wf s bs r : range_p s = Some (bs, r) -> wf bs.
+Proof.
+  unfold range_p. pose proof (hyphen_p_wf s) as W. destruct (hyphen_p s) as [[b r0]|]; [|apply simples_p_wf].
+  destruct (at_alt_end r0); [|apply simples_p_wf]. intros [= <- _]. cbn in W.
+  destruct b; cbn; [constructor; [exact W|constructor]|constructor].
 Qed.
 Lemma ranges_tail_wf f : forall s l r, ranges_tail f s = Some (l, r) -> wf l.
 Proof.
